@@ -183,6 +183,35 @@ func (p c02) lazyAfterStart(c *core.Ctx) {
 	c.Nontrivial(fmt.Sprintf("lazyafter|%d|%s", n, g.Sc.GraphSig()))
 }
 
+// sameNamedTypes: a cycle through two interface types that print alike (`model.Linker` declared in two
+// packages with the same base name): each point is offered the implementers of ITS type.
+func (p c02) sameNamedTypes(c *core.Ctx) {
+	g := world.NewG(c.Rng)
+	for x, nx := 0, c.Rng.Intn(3); x < nx; x++ {
+		g.AddRandomNode(world.TypesEagerPlain, 0.2)
+	}
+	g.ShuffleOrders()
+	names := [][2]string{{"a-link", "b-link"}, {"z-link", "b-link"}, {"link-1", "link-0"}}[c.Rng.Intn(3)]
+	a, b := &world.LinkA{Nm: names[0]}, &world.LinkB{Nm: names[1]}
+	extra := []any{a, b}
+	if c.Rng.Intn(2) == 0 {
+		extra = []any{b, a}
+	}
+	r := world.Start(g.Sc, world.Options{Extra: extra})
+	c.Count("starts", 1)
+	c.Count("same_named_type_cycle_starts", 1)
+	detail := failDetail(g.Sc, r, map[string]any{"names": names})
+	if r.Outcome() != "ok" {
+		c.Fail("", "a cycle through two interface types that print alike (model.Linker of two packages) did not start: "+core.Short(r.OutcomeDetail(), 300), detail)
+		return
+	}
+	if a.Next != any(b) || b.Next != any(a) {
+		c.Fail("", fmt.Sprintf("cycle through two same-named interface types: a.Next=%v (expected b), b.Next=%v (expected a)", a.Next, b.Next), detail)
+		return
+	}
+	c.Nontrivial(fmt.Sprintf("samenamed|%v|%s", names, g.Sc.GraphSig()))
+}
+
 // embeddedCycle: a cycle one direction of which is a tagged anonymous field (the decorator layout
 // `struct{ Service `wire:"core"` }`): core -> decorator by name, decorator -> core through the embedded interface.
 func (p c02) embeddedCycle(c *core.Ctx) {
@@ -221,6 +250,10 @@ func (p c02) embeddedCycle(c *core.Ctx) {
 func (p c02) Run(c *core.Ctx) {
 	if c.Index >= p.enumCount(c.Tier) && c.Index%40 == 9 {
 		p.embeddedCycle(c)
+		return
+	}
+	if c.Index >= p.enumCount(c.Tier) && c.Index%40 == 37 {
+		p.sameNamedTypes(c)
 		return
 	}
 	if c.Index >= p.enumCount(c.Tier) && c.Index%40 == 29 {
